@@ -246,7 +246,9 @@ def drive_and_validate(name, dictname, histories, spec="Trace_File", driver="dri
     wd = workdir(name)
     par = nshards or MAXPAR
     # trace files are kept short (TLC reads one trace per process); parallelism is a separate matter
-    nshards = nshards or max(MAXPAR, min(240, len(histories) // 250 + 1))
+    # ... and short in events too (TLC's Json module leaks a descriptor per evaluated state)
+    nev_est = sum(len(h.get("ops") or ()) + 1 for h in histories)
+    nshards = nshards or max(MAXPAR, min(400, max(len(histories) // 250, nev_est // 4000) + 1))
     if group_key is None:
         shards = shard(list(enumerate(histories)), nshards)
     else:
